@@ -8,6 +8,7 @@
   the JSON patch, restarts, with foreign writes between any two requests of one cycle.
 -/
 import Kopf.Lemmas.C06_Live
+import Kopf.Lemmas.C06_Registry
 namespace Kopf.C06
 
 /-! ## Foreign finalizers: never added, dropped or reordered -/
@@ -784,5 +785,38 @@ example : run "k" { w0 with fins := ["k"], rv := 2, marked := true, delDone := t
       [.decide { quiet with delReset := true } ⟨2, true, ["k"], true, false⟩] =
     some { w0 with fins := ["k"], rv := 2, marked := true, delDone := false,
                    pending := some ⟨[], 2, ["k"], false, false⟩ } := by decide
+
+/-! ## Who requires the finalizer: `requires_finalizer` of the registries (the atoms `spawnReq` / `changeReq`) -/
+
+/-- The finalizer is required iff SOME registration — of a handler that is not excluded (`forever_stopped`) —
+both requires it and matches the object: every registration decides for itself, wherever it stands in the
+registry and however many registrations share its id (stacked decorators). -/
+theorem requires_iff (ex : List String) (regs : List Reg) :
+    requiresLoop ex regs = true ↔ ∃ r ∈ regs, r.id ∉ ex ∧ r.requires = true ∧ r.hit = true :=
+  requiresLoop_iff ex regs
+
+/-- The order of registration does not matter. -/
+theorem requires_order_irrelevant (ex : List String) {a b : List Reg} (h : a.Perm b) :
+    requiresLoop ex a = requiresLoop ex b := by
+  rw [Bool.eq_iff_iff, requiresLoop_iff, requiresLoop_iff]
+  constructor
+  · rintro ⟨r, hr, h'⟩; exact ⟨r, h.mem_iff.mp hr, h'⟩
+  · rintro ⟨r, hr, h'⟩; exact ⟨r, h.mem_iff.mpr hr, h'⟩
+
+/-- A registration that requires and matches is enough, whatever precedes it — in particular earlier
+registrations of the SAME id that do not match (or do not require: an optional twin). -/
+theorem requires_every_registration (ex : List String) (pre post : List Reg) (r : Reg)
+    (hid : r.id ∉ ex) (hr : r.requires = true) (hm : r.hit = true) :
+    requiresLoop ex (pre ++ r :: post) = true :=
+  (requiresLoop_iff ex _).mpr ⟨r, by simp, hid, hr, hm⟩
+
+example : requiresLoop [] [⟨"fn", true, false⟩, ⟨"fn", true, true⟩] = true := by decide
+example : requiresLoop ["dm"] [⟨"dm", true, true⟩, ⟨"tm", true, false⟩] = false := by decide
+
+/-- Regression (seeded change C06c, white-box mutant m5): de-duplicating the registrations by id BEFORE matching
+loses the requirement of an object that matches only a later registration of a stacked function. -/
+theorem dedup_before_match_loses_requirement_witness :
+    ∃ regs, requiresLoop [] regs = true ∧ requiresLoop [] (dedupById regs []) = false :=
+  ⟨[⟨"fn", true, false⟩, ⟨"fn", true, true⟩], by decide, by decide⟩
 
 end Kopf.C06
